@@ -125,10 +125,10 @@ fn deduplicate_select_items(items: &mut Vec<SelectItem>) {
     let mut seen = HashSet::new();
     items.retain(|select_item| match select_item {
         SelectItem::UnnamedExpr(sql_ast::Expr::CompoundIdentifier(idents)) => {
-            // If any of the identifiers hadn't been seen yet, retain the expr
-            idents.iter().any(|ident| seen.insert(ident.clone()))
+            // Retain the expr unless the same (qualified) identifier has been seen
+            seen.insert(idents.clone())
         }
-        SelectItem::ExprWithAlias { alias, .. } => seen.insert(alias.clone()),
+        SelectItem::ExprWithAlias { alias, .. } => seen.insert(vec![alias.clone()]),
         _ => true,
     });
 }
